@@ -51,3 +51,31 @@ func XCheck(out io.Writer, n int, seed int64, deep bool) {
 		}
 	}
 }
+
+// XCheck08 emits generated C08 statements with the reference answers as JSON lines for the
+// construction-time cross-check against SQLite's window functions (xcheck08_sqlite.py).
+func XCheck08(out io.Writer, n int, seed int64) {
+	enc := json.NewEncoder(out)
+	for i := 0; i < n; i++ {
+		rnd := core.RandFor(seed, "XCHECK08", "q", i)
+		sch := GenTable08(rnd)
+		lite := []string{"CREATE TABLE w (id INT, p INT, o INT, k INT, v INT, d NUMERIC, s TEXT)"}
+		lite = append(lite, sch.Setup[1:]...)
+		g := NewGen08(rnd, sch.DB.Tables["w"].Rows, Cfg08{NoRangeNullKey: true})
+		for k := 0; k < 6; k++ {
+			var q *Query08
+			if k%3 == 0 {
+				q = g.Group()
+			} else {
+				q = g.Win()
+			}
+			exp := map[string][]map[string]any{}
+			for key, cells := range q.Expected {
+				for _, c := range cells {
+					exp[key] = append(exp[key], map[string]any{"mode": c.Mode, "v": c.V.Key(), "pieces": c.Pieces, "null": c.Null, "sep": c.Sep})
+				}
+			}
+			enc.Encode(map[string]any{"case": fmt.Sprintf("%d/%d", i, k), "setup": lite, "q": q.SQL, "keycols": q.KeyCols, "labels": q.Labels, "expected": exp})
+		}
+	}
+}
